@@ -98,4 +98,141 @@ theorem DispL.flagged {q : Party} {l : Nat} {msg : Msg} {q' : Party} {s : Sent} 
   | ldelMark wf hact => exact .ofOther (Or.inr (Or.inr hact))
   | ldelDeliver wf hact => exact .ofOther (Or.inr (Or.inr hact))
 
+/-! ### micro-steps: every event is one or two of these -/
+
+inductive Micro (H : Int → Int) (T : Tag → Int) (c : Cfg) : Sys → Sys → Prop
+  /-- housekeeping of the deliver buffer (nothing deliverable): obsolete entries are dropped,
+      l-retrieve messages may be sent -/
+  | hk (s : Sys) (i : Nat) (hi : c.honest i) (R : Filter) (s0 : Sent)
+      (hff : findFirst (deliverable (s.st i)) (s.st i).deliverBuf = none)
+      (hR : (s.st i).fifo = false → R = (s.st i).retrieve)
+      (hs0 : ∀ x ∈ s0, x.2.action = lRetrieve) :
+      Micro H T c s ⟨upd s.st i (hkParty (s.st i) R), s.log ++ tagMsgs i s0, s.bc, s.dl⟩
+  /-- a message is consumed -/
+  | disp (s : Sys) (i : Nat) (hi : c.honest i) (l : Nat) (msg : Msg) (hl : l < c.n)
+      (hin : l ∈ c.byz ∨ (l, i, msg) ∈ s.log) (q' : Party) (sd : Sent) (o : Outcome)
+      (hD : DispL H T (s.st i) l msg q' sd o) :
+      Micro H T c s ⟨upd s.st i q', s.log ++ tagMsgs i sd, s.bc, dlAfter s.dl i msg.tag o⟩
+  /-- a buffered message is handed out -/
+  | bufDel (s : Sys) (i : Nat) (hi : c.honest i) (e : Msg) (rest : List Msg) (m : Int)
+      (hff : findFirst (deliverable (s.st i)) (s.st i).deliverBuf = some (e, rest))
+      (hm : aGet (s.st i).mbar e.tag = some m) :
+      Micro H T c s ⟨upd s.st i { s.st i with
+          deliverS := (s.st i).deliverS.set e.sender.toNat ((s.st i).dS e.sender.toNat + 1),
+          deliverBuf := rest }, s.log, s.bc, s.dl ++ [(i, e.tag, m)]⟩
+  | bcast (s : Sys) (i : Nat) (hi : c.honest i) (v rnd : Int) :
+      Micro H T c s (s.apply H T (.bcast i v rnd))
+
+theorem sys_eta (s : Sys) : s = ⟨s.st, s.log, s.bc, s.dl⟩ := by cases s; rfl
+
+theorem tagMsgs_nil (i : Nat) : tagMsgs i [] = [] := rfl
+
+/-- one `Deliver` iteration of an honest party as micro-steps -/
+theorem stepSys_micro {c : Cfg} {s : Sys} (hI : Inv H c s) {i : Nat}
+    (hi : c.honest i) (pi : List Nat) (inp : Option (Nat × Msg))
+    (hinp : ∀ l msg, inp = some (l, msg) → l < c.n ∧ (l ∈ c.byz ∨ (l, i, msg) ∈ s.log)) :
+    (findFirst (deliverable (s.st i)) (s.st i).deliverBuf ≠ none ∧
+      Micro H T c s (stepSys H T s i pi inp)) ∨
+    (findFirst (deliverable (s.st i)) (s.st i).deliverBuf = none ∧
+      ∃ s1, Micro H T c s s1 ∧ Inv H c s1 ∧
+        ((inp = none ∧ stepSys H T s i pi inp = s1) ∨
+         (∃ l msg q' sd o, inp = some (l, msg) ∧ DispL H T (s1.st i) l msg q' sd o ∧
+            Micro H T c s1 (stepSys H T s i pi inp) ∧
+            stepSys H T s i pi inp =
+              ⟨upd s1.st i q', s1.log ++ tagMsgs i sd, s1.bc, dlAfter s1.dl i msg.tag o⟩))) := by
+  have hP : PInv H c i (s.st i) s.log s.dl := hI.parties i hi
+  rcases phaseBuffer_cases (s.st i) hP.cskip with ⟨e, rest, hff, hm, hpb⟩ |
+    ⟨e, rest, m, hff, hm, hpb⟩ | ⟨hff, R, s0, hpb, hR, hs0⟩
+  · exfalso
+    obtain ⟨he, hdel, _⟩ := findFirst_some _ _ _ _ hff
+    unfold deliverable at hdel
+    simp only [Bool.and_eq_true, decide_eq_true_eq] at hdel
+    obtain ⟨v, hv, _⟩ := hP.good e.tag (hdel.1.trans hP.cID) (Or.inl ⟨e, he, rfl⟩)
+    rw [hm] at hv; cases hv
+  · left
+    refine ⟨by rw [hff]; simp, ?_⟩
+    have hstep : step H T (s.st i) pi inp = ⟨{ s.st i with
+          deliverS := (s.st i).deliverS.set e.sender.toNat ((s.st i).dS e.sender.toNat + 1),
+          deliverBuf := rest }, [], .delivered e.sender.toNat m⟩ := by
+      unfold step; rw [hpb]
+    have htag : deliveredTag (s.st i) pi inp = e.tag := by
+      unfold deliveredTag stepMsg; rw [hff]; rfl
+    rw [stepSys_eq H T s i pi inp _ _ _ hstep, htag]
+    have := Micro.bufDel (H := H) (T := T) (c := c) s i hi e rest m hff hm
+    simpa [dlAfter, tagMsgs_nil] using this
+  · right
+    refine ⟨hff, _, Micro.hk s i hi R s0 hff hR hs0, ?_, ?_⟩
+    · exact inv_T1 hI hi _ s0 (hP.hk R hR) (NewOk.of_quiet (quiet_of_retrieve hs0))
+    · have htb : takeBuffered (hkParty (s.st i) R).bufMsg pi = none := by
+        show takeBuffered (s.st i).bufMsg pi = none
+        rw [hP.cbuf]; exact takeBuffered_replicate _ _
+      have htb' : takeBuffered (s.st i).bufMsg pi = none := htb
+      cases inp with
+      | none =>
+        left
+        refine ⟨rfl, ?_⟩
+        have hstep : step H T (s.st i) pi none = ⟨hkParty (s.st i) R, s0, .idle⟩ := by
+          unfold step; rw [hpb]; simp only []; rw [htb]
+        rw [stepSys_eq H T s i pi none _ _ _ hstep]; rfl
+      | some lm =>
+        obtain ⟨l, msg⟩ := lm
+        right
+        obtain ⟨q', sd, o, hD, hEq⟩ := dispatchL H T (hkParty (s.st i) R) s0 l msg
+        have hstep : step H T (s.st i) pi (some (l, msg)) = ⟨q', s0 ++ sd, o⟩ := by
+          unfold step; rw [hpb]; simp only []; rw [htb]; exact hEq
+        have htag : deliveredTag (s.st i) pi (some (l, msg)) = msg.tag := by
+          unfold deliveredTag stepMsg; rw [hff]; simp only []; rw [htb']; rfl
+        obtain ⟨hl, hin⟩ := hinp l msg rfl
+        have hD' : DispL H T ((⟨upd s.st i (hkParty (s.st i) R), s.log ++ tagMsgs i s0, s.bc,
+            s.dl⟩ : Sys).st i) l msg q' sd o := by
+          show DispL H T (upd s.st i (hkParty (s.st i) R) i) l msg q' sd o
+          rw [upd_same]; exact hD
+        have hfin : stepSys H T s i pi (some (l, msg)) =
+            ⟨upd (upd s.st i (hkParty (s.st i) R)) i q', (s.log ++ tagMsgs i s0) ++ tagMsgs i sd,
+              s.bc, dlAfter s.dl i msg.tag o⟩ := by
+          rw [stepSys_eq H T s i pi _ _ _ _ hstep, htag, upd_upd, tagMsgs_append, List.append_assoc]
+        refine ⟨l, msg, q', sd, o, rfl, hD', ?_, hfin⟩
+        rw [hfin]
+        refine Micro.disp _ i hi l msg hl ?_ q' sd o hD'
+        rcases hin with h | h
+        · exact Or.inl h
+        · exact Or.inr (List.mem_append_left _ h)
+
+/-- what an event hands to `stepSys` -/
+theorem valid_input {c : Cfg} {s : Sys} {i src : Nat} {msg : Msg}
+    (hv : src < c.n ∧ (src ∈ c.byz ∨ (src, i, msg) ∈ s.log)) :
+    ∀ l m, (some (src, msg) : Option (Nat × Msg)) = some (l, m) →
+      l < c.n ∧ (l ∈ c.byz ∨ (l, i, m) ∈ s.log) := by
+  intro l m h
+  simp only [Option.some.injEq, Prod.mk.injEq] at h
+  obtain ⟨rfl, rfl⟩ := h
+  exact hv
+
+/-- induction over reachable states along micro-steps, with the safety invariant at hand -/
+theorem live_induction {c : Cfg} (hy : Hyp H c) (P : Sys → Prop) (h0 : P (Sys.init c))
+    (hstep : ∀ s s', Inv H c s → Inv H c s' → Micro H T c s s' → P s → P s') :
+    ∀ {s : Sys}, Reach H T c s → P s := by
+  intro s hr
+  induction hr with
+  | init => exact h0
+  | step s ev hr hv ih =>
+    have hI := reach_inv hy hr
+    have hI' := inv_step T hy hI ev hv
+    have key : ∀ (i : Nat) (hi : c.honest i) (pi : List Nat) (inp : Option (Nat × Msg)),
+        (∀ l msg, inp = some (l, msg) → l < c.n ∧ (l ∈ c.byz ∨ (l, i, msg) ∈ s.log)) →
+        Inv H c (stepSys H T s i pi inp) → P (stepSys H T s i pi inp) := by
+      intro i hi pi inp hinp hI2
+      rcases stepSys_micro (T := T) hI hi pi inp hinp with ⟨_, hm⟩ |
+        ⟨_, s1, hm1, hI1, ⟨_, heq⟩ | ⟨l, msg, q', sd, o, _, _, hm2, _⟩⟩
+      · exact hstep _ _ hI hI2 hm ih
+      · rw [heq]; exact hstep _ _ hI hI1 hm1 ih
+      · exact hstep _ _ hI1 hI2 hm2 (hstep _ _ hI hI1 hm1 ih)
+    cases ev with
+    | recv i src msg pi =>
+      obtain ⟨hi, hsrc, hin⟩ := hv
+      exact key i hi pi _ (valid_input ⟨hsrc, hin⟩) hI'
+    | tick i pi =>
+      exact key i hv pi none (by intro l m h; cases h) hI'
+    | bcast i v rnd => exact hstep _ _ hI hI' (Micro.bcast s i hv v rnd) ih
+
 end Tmcg.Rbc
